@@ -132,7 +132,7 @@ Lemma remove_sub_spec s pe c :
   match remote_feature pe (rc_cli c), local_feature s (rc_srv c) with
   | Some (en, rf), Some sf =>
       let ca := default_dev pe (rc_cli c) in
-      let hit := fun x : entry => eqb_faddr (e_cli x) ca && same_srv x sf in
+      let hit := fun x : entry => N.eqb (e_ski x) (p_ski pe) && eqb_faddr (e_cli x) ca && same_srv x sf in
       remove_subscription s pe c =
         if existsb hit (subs s)
         then (set_subs s (filter (fun x => negb (hit x)) (subs s)) (next_sub s),
@@ -144,7 +144,7 @@ Proof.
   unfold remove_subscription.
   destruct (remote_feature pe (rc_cli c)) as [[en rf]|]; [|reflexivity].
   destruct (local_feature s (rc_srv c)) as [sf|]; [|reflexivity].
-  cbv zeta. rewrite (filter_keeps_all (fun x => eqb_faddr (e_cli x) (default_dev pe (rc_cli c)) && same_srv x sf)).
+  cbv zeta. rewrite (filter_keeps_all (fun x => N.eqb (e_ski x) (p_ski pe) && eqb_faddr (e_cli x) (default_dev pe (rc_cli c)) && same_srv x sf)).
   destruct (existsb _ (subs s)); reflexivity.
 Qed.
 
@@ -425,39 +425,20 @@ Proof.
     destruct (remote_feature pe (rc_cli c)) as [[en rf]|].
     2:{ rewrite Hrs in *. cbn [fst snd] in *.
         split; [|constructor; [reflexivity | apply (inv_reg _ _ I) | exact Hs1]].
-        destruct (fa_dev (rc_cli c)), (p_addr pe); try destruct (negb (n =? n0)%N); try reflexivity;
-          simpl; rewrite !N.eqb_refl; reflexivity. }
+        simpl. rewrite !N.eqb_refl. reflexivity. }
     destruct (local_feature s (rc_srv c)) as [sf|].
     2:{ rewrite Hrs in *. cbn [fst snd] in *.
         split; [|constructor; [reflexivity | apply (inv_reg _ _ I) | exact Hs1]].
-        destruct (fa_dev (rc_cli c)), (p_addr pe); try destruct (negb (n =? n0)%N); try reflexivity;
-          simpl; rewrite !N.eqb_refl; reflexivity. }
+        simpl. rewrite !N.eqb_refl. reflexivity. }
     cbv zeta in Hrs. rewrite Hrs in *. clear Hrs. cbv zeta.
-    set (hit_e := fun x : entry => eqb_faddr (e_cli x) (default_dev pe (rc_cli c)) && same_srv x sf) in *.
-    rewrite (existsb_abs_reg s m _ hit_e I) by (intros x; reflexivity).
-    assert (Hfilt : forall s1, SInv s1 -> subs s1 = filter (fun x => negb (hit_e x)) (subs s) ->
-              Inv s1 {| w := s1; reg := filter (fun x : sentry => negb (eqb_faddr (s_cli x) (default_dev pe (rc_cli c)) &&
-                                                           eqb_srv (s_srv x) (lf_ent sf, lf_id sf))) (reg m) |}).
-    { intros s1 Hsi H1. constructor; simpl; [reflexivity | | exact Hsi].
-      rewrite (inv_reg _ _ I), H1. apply filter_abs. intros x. reflexivity. }
-    destruct (existsb hit_e (subs s)) eqn:Eh.
-    + cbn [fst snd] in *.
-      match goal with |- context [if ?f then _ else _] => destruct f eqn:Ef end.
-      * split; [reflexivity|].
-        assert (Hokr : eqb_list eqb_res (results ([ev_reg EvSub ChRemove (p_ski pe) en (rf_addr en rf) sf] ++
-                        call_result p ctr ack false (nm_addr (p_addr pe)) (nm_addr (Some LOCAL_DEV)))) (expect_result p ctr ack false) = true).
-        { destruct ack; simpl; rewrite ?N.eqb_refl; reflexivity. }
-        rewrite Hokr. apply Hfilt; [exact Hs1 | reflexivity].
-      * split; [destruct ack; simpl; rewrite Hski, ?N.eqb_refl, ?eqb_eaddr_refl, ?eqb_faddr_refl; reflexivity|].
-        apply Hfilt; [exact Hs1 | reflexivity].
-    + cbn [fst snd] in *.
-      match goal with |- context [if ?f then _ else _] => destruct f eqn:Ef end.
-      * split; [reflexivity|].
-        assert (Hokr : eqb_list eqb_res (results ([] ++ call_result p ctr ack true (nm_addr (p_addr pe)) (nm_addr (Some LOCAL_DEV)))) (expect_result p ctr ack false) = false).
-        { destruct ack; simpl; rewrite ?N.eqb_refl; reflexivity. }
-        rewrite Hokr. constructor; [reflexivity | apply (inv_reg _ _ I) | exact Hs1].
-      * split; [simpl; rewrite !N.eqb_refl; reflexivity|].
-        constructor; [reflexivity | apply (inv_reg _ _ I) | exact Hs1].
+    set (hit_e := fun x : entry => N.eqb (e_ski x) (p_ski pe) && eqb_faddr (e_cli x) (default_dev pe (rc_cli c)) && same_srv x sf) in *.
+    rewrite (existsb_abs_reg s m _ hit_e I) by (intros x; unfold hit_e; simpl; rewrite Hski; reflexivity).
+    destruct (existsb hit_e (subs s)) eqn:Eh; cbn [fst snd] in *.
+    + split; [destruct ack; simpl; rewrite Hski, ?N.eqb_refl, ?eqb_eaddr_refl, ?eqb_faddr_refl; reflexivity|].
+      constructor; simpl; [reflexivity | | exact Hs1].
+      rewrite (inv_reg _ _ I). apply filter_abs. intros x. unfold hit_e. simpl. rewrite Hski. reflexivity.
+    + split; [simpl; rewrite !N.eqb_refl; reflexivity|].
+      constructor; [reflexivity | apply (inv_reg _ _ I) | exact Hs1].
   - (* SetData *)
     cbn [mon]. unfold advance. rewrite Hw.
     pose proof (sinv_step s (SetData e f fn v) (inv_s _ _ I)) as Hs1.
